@@ -38,7 +38,7 @@ def expected_csv_field(v, absent):
     return None                                      # numbers: compared through float/int value
 
 def run(ctx):
-    rnd = ctx['rnd']; n = 300 if ctx['tier'] == 'quick' else 12000
+    rnd = ctx['rnd']; n = 2500 if ctx['tier'] == 'quick' else 12000
     cases = []; meta = {}
     for i in range(n):
         ncol = rnd.randint(1, 5)
